@@ -195,7 +195,7 @@ impl<N: Copy> OrderMap<N> {
             !old(self).present(id) ==> final(self).p2n() == old(self).p2n(),                           // [remove_absent_node_changes_nothing]
             forall|p: TopologicalPosition| old(self).p2n().contains_key(p) && old(self).p2n()[p] != id
                 ==> final(self).p2n().contains_key(p) && final(self).p2n()[p] == old(self).p2n()[p],   // [remove_node_others_keep_position]
-            forall|p: TopologicalPosition| final(self).p2n().contains_key(p) ==> old(self).p2n().contains_key(p),
+            forall|p: TopologicalPosition| final(self).p2n().contains_key(p) ==> old(self).p2n().contains_key(p) && final(self).p2n()[p] == old(self).p2n()[p],   // [remove_node_adds_nothing]
             final(self).n2p().len() == old(self).n2p().len(),
             forall|i: int| 0 <= i < old(self).n2p().len() && i != graph.ix_of(id) ==> final(self).n2p()[i] == old(self).n2p()[i]/*-*/,   // [remove_node_other_slots_untouched]
     {
@@ -234,6 +234,32 @@ impl<N: Copy> OrderMap<N> {
                 old(self).lemma_injective(&graph, p, pos);
             }
         }/*-*/
+    }
+//@ end
+
+//@ item src/acyclic/order_map.rs | impl<N: Copy> OrderMap<N> | fn rename_node
+    /// Transfer the position of node `from` to node `to`; `from` loses its
+    /// entry.
+    ///
+    /// This is what has to happen when a graph gives a node a new index.
+    ///
+    /// Panics if a node index is out of bounds.
+    #[track_caller]
+    pub fn rename_node/*+*/<G: NodeIndexable<NodeId = N>>/*-*/(&mut self, from: N, to: N, graph: /*R:D22 impl NodeIndexable<NodeId = N> */ G /*-*/)
+        /*+*/requires graph.ix_of(from) < old(self).n2p().len(), graph.ix_of(to) < old(self).n2p().len()
+        ensures final(self).p2n() == old(self).p2n().insert(old(self).n2p()[graph.ix_of(from) as int], to),
+            final(self).n2p() == old(self).n2p().update(graph.ix_of(from) as int, TopologicalPosition(0)).update(graph.ix_of(to) as int, old(self).n2p()[graph.ix_of(from) as int])/*-*/   // [rename_node_raw]
+    {
+        /*+*/proof { axiom_tp_key_model(); }/*-*/
+        let from_idx = graph.to_index(from);
+        let to_idx = graph.to_index(to);
+        assert!(from_idx < self.node_to_pos.len());
+        assert!(to_idx < self.node_to_pos.len());
+
+        let pos = self.node_to_pos[from_idx];
+        self.node_to_pos[from_idx] = TopologicalPosition::default();
+        self.node_to_pos[to_idx] = pos;
+        self.pos_to_node.insert(pos, to);
     }
 //@ end
 
